@@ -56,9 +56,16 @@ func (pf *ZKProof) Verify(Session []byte, X *crypto.ECPoint) bool {
 	if pf == nil || !pf.ValidateBasic() {
 		return false
 	}
+	if X == nil || !X.ValidateBasic() {
+		return false
+	}
 	ec := X.Curve()
 	ecParams := ec.Params()
 	q := ecParams.N
+	// a response that is 0 mod q would make t*G the identity, which ECPoint cannot represent (ScalarBaseMult panics)
+	if new(big.Int).Mod(pf.T, q).Sign() == 0 {
+		return false
+	}
 	g := crypto.NewECPointNoCurveCheck(ec, ecParams.Gx, ecParams.Gy)
 
 	var c *big.Int
@@ -110,9 +117,16 @@ func (pf *ZKVProof) Verify(Session []byte, V, R *crypto.ECPoint) bool {
 	if pf == nil || !pf.ValidateBasic() {
 		return false
 	}
+	if V == nil || !V.ValidateBasic() || R == nil || !R.ValidateBasic() {
+		return false
+	}
 	ec := V.Curve()
 	ecParams := ec.Params()
 	q := ecParams.N
+	// responses that are 0 mod q would make t*R or u*G the identity, which ECPoint cannot represent (ScalarMult panics)
+	if new(big.Int).Mod(pf.T, q).Sign() == 0 || new(big.Int).Mod(pf.U, q).Sign() == 0 {
+		return false
+	}
 	g := crypto.NewECPointNoCurveCheck(ec, ecParams.Gx, ecParams.Gy)
 
 	var c *big.Int
